@@ -177,12 +177,12 @@ def main(tier):
     vf.build('seq')
     thorough = tier == 'thorough'
     jobs = [('genA', 'RadixTree_genA.cfg', 6, 900), ('genB', 'RadixTree_genB.cfg', 6, 900),
-            ('trav', 'RadixTree_trav5.cfg' if thorough else 'RadixTree_trav.cfg', 8 if thorough else 4, 2400),
+            ('trav', 'RadixTree_trav5.cfg' if thorough else 'RadixTree_trav.cfg', 8 if thorough else 4, 7200),
             ('tree', 'RadixTree_tree.cfg', 3, 900), ('big', 'RadixTree_bigT.cfg' if thorough else 'RadixTree_big.cfg', 4, 1500),
             ('2d', 'RadixTree_2dT.cfg' if thorough else 'RadixTree_2d.cfg', 3, 900),
             ('build', 'RadixTree_build6.cfg', 3, 900)]
     if thorough:
-        jobs.insert(2, ('genC', 'RadixTree_genC.cfg', 6, 2400))
+        jobs.insert(2, ('genC', 'RadixTree_genC.cfg', 6, 7200))
     # the seeded large cases do not depend on TLC: run them meanwhile (one driver process per group)
     rc = rand_cases(tier, 'seq')
     groups = [rc[i::6] for i in range(6)]
